@@ -8,7 +8,7 @@ CLAIMS = {
              text="Sql.tla models the WHERE pipeline as coded (AddComparison tightening, BETWEEN = (>,<), IsFalse short cut, Epoch push-down with its +-1 adjustment and literal kinds, interval scan / trimResultsToRange, per-column post-filter) next to the declarative filter. TLC checks exhaustively that the deviation-free pipeline equals the declarative filter for all conjunctions of <= 2 comparisons (thorough: plus the conjunctions of 3 that extend every 300th pair) over {Epoch, three value columns} x {<,<=,>,>=,=,BETWEEN} x bounds on / between / outside stored values x literal kinds {datetime string, epoch seconds, epoch nanoseconds} (quick: BETWEEN with datetime strings over a reduced set of bounds). TLC also derives, per statement, the answers the tree gives under every subset of the exercised named deviations. All single comparisons and a seeded sample of the longer conjunctions are rendered as SQL text and run through DataService.Query on a 5-row fixed-length and a 6-row variable-length 1Min bucket; the returned rows must be exactly the rows the declarative filter selects from the rows a plain query returns.",
              note="Trusted: TLC, the Python rendering (grid positions -> timestamps / literals, levels -> column values). Value literals are non-negative (unary minus is rejected by the parser with an explicit error) and integer for integer columns; <> is not part of the statement. A response without columns (provably false predicate) is read as zero rows."),
  "C20": dict(technique="TLA+ model of Project/Rename, LIMIT (pushed down or not) and InsertIntoStatement vs the relational answer, checked by TLC; TLC-enumerated statements executed as SQL text by the real server, INSERT targets re-queried",
-             text="TLC enumerates every select list (ordered subsets of Epoch and three value columns, each item without alias, with a fresh alias or with an alias that is the name of another bucket column), LIMIT 0..rows+1 with and without WHERE, and INSERT INTO for source selections (no WHERE, lower/upper/BETWEEN Epoch range, value predicate, empty selection, LIMIT) x select lists containing Epoch x target timeframes (same, 5x, 60x; fixed and variable target), and checks that the deviation-free pipeline equals the relational answer. Every LIMIT value with and without WHERE, every select list of <= 2 items and a seeded sample of the rest (other WHERE clauses, longer lists, INSERTs) are executed as SQL text on a fixed and a variable bucket; result columns (by output name) and rows are compared; after INSERT the target bucket is queried with the plain query API and must hold the selected rows at timestamps truncated to the target timeframe.",
+             text="TLC enumerates every select list (ordered subsets of Epoch and three value columns, each item without alias, with a fresh alias or with an alias that is the name of another bucket column), LIMIT 0..rows+1 with and without WHERE, and INSERT INTO for source selections (no WHERE, lower/upper/BETWEEN Epoch range, value predicate, empty selection, LIMIT) x select lists containing Epoch x target timeframes (same, 5x, 60x; fixed and variable target), and checks that the deviation-free pipeline equals the relational answer. Every LIMIT value with and without WHERE, every select list of <= 2 items and a seeded sample of the rest (other WHERE clauses, longer lists, INSERTs) are executed as SQL text on a fixed and a variable bucket; result columns (by output name) and rows are compared; after INSERT the target bucket is queried with the plain query API and must hold the selected rows at timestamps truncated to the target timeframe. Select lists of aggregate calls (min / max / count, with and without aliases; outside the model's column-only lists) are run as directed statements: every item must come back under its own alias or the function's default name with the aggregate of the stored column.",
              note="Trusted: TLC, the Python rendering. Rows of one INSERT that fall into the same interval of a fixed-length target: any one of them is accepted. Variable-length target: time accepted within [start of target interval, source time + 1 s] (sub-second part is not carried by INSERT; KF-C09-1). Column order of a result is not compared. The statement result of INSERT itself is not part of the property."),
 }
 import calendar, json, os, random, shutil, struct, time
